@@ -282,6 +282,7 @@ static int op_check_format(int argc, char **argv, FILE *out)
 
 struct kv_op kv_ops_pipefile[] = {
         {"kalign_file", op_kalign_file},
+        {"kalign_file_soft2", op_kalign_file},   /* model side: SoftF32 run stage (Model/PipelineFileSoft.lean) */
         {"check_format", op_check_format},
         {NULL, NULL}
 };
